@@ -35,7 +35,10 @@ Definition op_of (L : layer) (o : cop) : op :=
   end.
 
 Inductive case :=
-| CServe (tar : list tent) (cs : Z)
+| CServe (db : bool)                                      (* metadata store driven: db (bbolt) or memory *)
+         (fwd : bool)                                     (* the TOC has a hardlink entry before the entry of its target
+                                                             (observed; the db store resolves hardlinks while decoding and refuses it) *)
+         (tar : list tent) (cs : Z)
          (files : list (path * list (Z * list key)))     (* regular files by owner path; per chunk offset the keys sharing its compression member *)
          (obs_chunks : list (list (Z * Z)))              (* chunk table observed per file (ChunkEntryForOffset walk) *)
          (view : option (list (path * onode)))           (* observed tree, [None] = the layer could not be opened *)
@@ -93,19 +96,19 @@ Definition files_ok (mv : list (path * vnode)) (files : list path) : bool :=
   && Nat.eqb (List.length (filter (fun x => kind_eqb (v_kind (snd x)) KReg && path_eqb (v_owner (snd x)) (fst x)) mv))
              (List.length files).
 
-Definition layer_of (mv : list (path * vnode)) (cs : Z) (files : list (path * list (Z * list key))) : layer :=
+Definition layer_of (db : bool) (mv : list (path * vnode)) (cs : Z) (files : list (path * list (Z * list key))) : layer :=
   map (fun f => let d := match lookup_view mv (fst f) with Some n => v_data n | None => [] end in
-                mkFile d (mk_table (zlen d) cs) (snd f)) files.
+                mkFile db d (if db then mk_table_db (zlen d) cs else mk_table (zlen d) cs) (snd f)) files.
 
 Definition zz_eqb (a b : Z * Z) : bool := (fst a =? fst b) && (snd a =? snd b).
 
 Definition case_ok (c : case) : bool :=
   match c with
-  | CServe tar cs files obs_chunks view ops outs =>
-      match view_of_tar tar, view with
+  | CServe db fwd tar cs files obs_chunks view ops outs =>
+      match (if db && fwd then None else view_of_tar tar), view with
       | None, None => true
       | Some mv, Some ov =>
-          let L := layer_of mv cs files in
+          let L := layer_of db mv cs files in
           view_ok mv (map fst files) ov
           && files_ok mv (map fst files)
           && list_eqb (list_eqb zz_eqb) (map (fun i => map (fun k => let '(_, o, s) := k in (o, s)) (file_keys L i)) (seq 0 (List.length L))) obs_chunks
